@@ -3,7 +3,7 @@ C14  Circuit files round-trip; parsers reject malformed files gracefully.
 
 Property theorems only; the model is Model/Format.lean (it is executed by
 `drv_c14` and compared with the Go code on every run), helper lemmas are in
-Proofs/Format.lean.
+Proofs/Format.lean, Proofs/FormatRT.lean, Proofs/FormatBristol.lean.
 
 Statement (properties.jsonl), split into the parts proved below:
 
@@ -16,7 +16,8 @@ Statement (properties.jsonl), split into the parts proved below:
  (B) "it never crashes or hangs" —
        hang: both model parsers are total Lean functions (structural
        recursion), and the recursion bounds are never the reason for stopping:
-       `C14_mpclc_fuel_adequate`;
+       `C14_mpclc_fuel_adequate` (the Bristol model has no bound: it recurses
+       on the list of lines);
        crash: `C14_bristol_never_panics` (full strength: every indexing in
        `ParseBristol` is in range for every input);  for `ParseMPCLC` the
        statement is FALSE for the code in /repo: `C14_mpclc_panic_witness`
@@ -26,9 +27,19 @@ Statement (properties.jsonl), split into the parts proved below:
  (C) "Writing any circuit in either supported file format and parsing it back
      yields a circuit with the same gates, wire and gate counts and
      input/output signature …, hence the same function, and writing it again
-     gives the same bytes" — see the second half of this file.
+     gives the same bytes" —
+       type text: `C14_type_roundtrip` (full strength on the I/O type grammar);
+       Bristol: `C14_bristol_roundtrip` (full strength for every circuit the
+       format can carry: sizes only, at least one input bit);
+       native: FALSE for the code in /repo once an I/O header string crosses
+       the 4096-byte bufio buffer or the reader delivers short reads
+       (`C14_mpclc_roundtrip_short_read_witness`, `…_short_reader_witness`,
+       replayed on the Go code with 30..450-member struct headers);
+       `C14_mpclc_roundtrip_partial` proves it for files of at most one buffer
+       read from a full-delivery reader, `C14_mpclc_roundtrip_fixed` proves the
+       full statement for `parseString` with `io.ReadFull`.
 -/
-import MpcVerif.Proofs.Format
+import MpcVerif.Proofs.FormatBristol
 
 namespace Mpc
 open Fmt
@@ -102,5 +113,168 @@ theorem C14_mpclc_never_panics_partial (cfg : RdCfg) (fx : Fix) (hfx : fx.guardG
   parseMPCLC_guard_no_panic cfg fx hfx bytes
 
 example : Fix.both.guardGates = true := rfl
+
+/-- Totality ("never hangs") of the model of `ParseMPCLC`: it is a Lean
+function, so it terminates on every input; its three recursion bounds (stream
+length + 1 for the argument tree and for the gate loop) are never what stops
+it, for any bytes, reader behaviour and variant. -/
+theorem C14_mpclc_fuel_adequate (cfg : RdCfg) (fx : Fix) (bytes : Bytes) :
+    parseMPCLC cfg fx bytes ≠ .error .fuel :=
+  parseMPCLC_no_fuel cfg fx bytes
+
+/-- Every outcome of either parser is one of: a circuit, `error`, (native
+only:) `panic`, or `oversize` (a declared size above 10^6 was read, outside the
+property). -/
+theorem C14_parse_total (cfg : RdCfg) (fx : Fix) (bytes : Bytes) :
+    (∃ c, parseMPCLC cfg fx bytes = .ok c) ∨ parseMPCLC cfg fx bytes = .error .error ∨
+    parseMPCLC cfg fx bytes = .error .panic ∨ parseMPCLC cfg fx bytes = .error .oversize := by
+  have := parseMPCLC_no_fuel cfg fx bytes
+  cases h : parseMPCLC cfg fx bytes with
+  | ok c => exact Or.inl ⟨c, rfl⟩
+  | error e => cases e <;> simp_all
+
+/-! ## (C) round trip -/
+
+/-- Type text.  `types.Parse (t.String())` succeeds for every type `t` of the
+I/O grammar (sized bool/int/uint/string/struct, unsized int/uint/string, arrays
+and slices of those, sizes below 2^31), returns `t` up to the fields the text
+does not carry (`Info.norm`), and the result prints as the same text.
+Outside the grammar the statement is false (e.g. `float32`, `*uint8`, unsized
+`bool`, which parses to `bool1`); such types do not occur in compiled circuits. -/
+theorem C14_type_roundtrip (t : Info) (h : t.inGrammar = true) :
+    typeParse (typeString t) = some t.norm ∧ typeString t.norm = typeString t :=
+  ⟨typeParse_typeString t h, typeString_norm t⟩
+
+example : (Info.arr false 3 24 (.arr true 5 40 (.base .struct true 8))).inGrammar = true := by decide
+example : typeParse (typeString (.base .float true 32)) = none := by decide +kernel
+example : typeParse (typeString (.base .bool false 0)) = some (.base .bool true 1) := by decide +kernel
+
+/-
+FULL STATEMENT of the native round trip:
+  ∀ cfg (c : PCircuit), c.Valid →
+    parseMPCLC cfg Fix.none (marshal c) = .ok c.norm ∧ marshal c.norm = marshal c
+(for every reader behaviour `cfg`).  It is FALSE for the code in /repo:
+`C14_mpclc_roundtrip_short_read_witness`.  Proved instead:
+  * `C14_mpclc_roundtrip_partial`: the statement for the code as it is, when
+    the file fits the 4096-byte bufio buffer and the underlying reader delivers
+    what is asked (bytes.Reader, regular files);
+  * `C14_mpclc_roundtrip_fixed`: the full statement, every reader behaviour and
+    file size, for `parseString` with `io.ReadFull` (one-line repair).
+`c.norm` differs from `c` only in what the format does not carry: `Input1` of
+INV gates is 0, types are as `types.Parse` reads their text (`Info.norm`).
+-/
+
+/-- Native round trip for the code in /repo, files of at most one buffer. -/
+theorem C14_mpclc_roundtrip_partial (cfg : RdCfg) (c : PCircuit) (hv : c.Valid)
+    (hfull : FullOracle cfg) (hfit : (marshal c).length ≤ cfg.bufSize) (hbs : 20 < cfg.bufSize) :
+    parseMPCLC cfg Fix.none (marshal c) = .ok c.norm ∧ marshal c.norm = marshal c ∧
+    ∀ x, c.norm.toCircuit.compute x = c.toCircuit.compute x :=
+  ⟨parseMPCLC_marshal cfg Fix.none c hv (Or.inr ⟨hfull, hfit, hbs⟩), marshal_norm c, compute_norm c⟩
+
+/-- Native round trip at full strength (all circuits, all reader behaviours,
+all sizes) for the repaired `parseString`. -/
+theorem C14_mpclc_roundtrip_fixed (cfg : RdCfg) (fx : Fix) (hfx : fx.readFullStrings = true)
+    (c : PCircuit) (hv : c.Valid) :
+    parseMPCLC cfg fx (marshal c) = .ok c.norm ∧ marshal c.norm = marshal c ∧
+    ∀ x, c.norm.toCircuit.compute x = c.toCircuit.compute x :=
+  ⟨parseMPCLC_marshal cfg fx c hv (Or.inl hfx), marshal_norm c, compute_norm c⟩
+
+example : FullOracle RdCfg.std := fun _ _ => Nat.le_refl _
+
+/-- Non-vacuity: a valid circuit with a struct argument (two compound
+members, one an array), an empty name, an INV and an AND gate. -/
+def c14Example : PCircuit :=
+  { numGates := 2, numWires := 5,
+    inputs := [.mk [115] (.base .struct true 2)
+                 [.mk [] (.base .bool true 1) [], .mk [121] (.arr false 1 1 (.base .uint true 1)) []],
+               .mk [98] (.base .int true 1) []],
+    outputs := [.mk [114] (.base .uint true 2) []],
+    gates := [⟨.inv, 0, 7, 3⟩, ⟨.and, 3, 2, 4⟩] }
+
+theorem c14Example_valid : c14Example.Valid where
+  ngates := by decide
+  ng_cap := by decide
+  nw_cap := by decide
+  ni_cap := by decide
+  no_cap := by decide
+  ins := by decide +kernel
+  outs := by decide +kernel
+  fits := by decide
+  wf := by decide
+  assigned := by
+    intro w hw
+    have : w = 0 ∨ w = 1 ∨ w = 2 ∨ w = 3 ∨ w = 4 := by
+      simp only [c14Example] at hw; omega
+    rcases this with h | h | h | h | h <;> subst h <;> decide
+
+example : parseMPCLC RdCfg.std Fix.none (marshal c14Example) = .ok c14Example.norm :=
+  (C14_mpclc_roundtrip_partial RdCfg.std c14Example c14Example_valid (fun _ _ => Nat.le_refl _)
+    (by decide +kernel) (by decide)).1
+
+/-- Bristol round trip, full strength for the circuits the format can carry
+(`BValid`: sizes in `[0, 2^31)`, at least one input bit — `ParseBristol`
+refuses a circuit without input bits, "no inputs defined" — and the parser's
+acceptance conditions): `ParseBristol (MarshalBristol c)` returns the same
+gates (INV `Input1` = 0), counts and argument sizes, under the made-up names
+`NI1…`/`NO1…` as `uint`; writing it again gives the same text; same function.
+The Bristol parser reads whole lines, so reader behaviour plays no role. -/
+theorem C14_bristol_roundtrip (c : PCircuit) (hv : c.BValid) :
+    parseBristol (marshalBristol c) = .ok c.bnorm ∧ marshalBristol c.bnorm = marshalBristol c ∧
+    ∀ x, c.bnorm.toCircuit.compute x = c.toCircuit.compute x :=
+  ⟨parseBristol_marshal c hv, marshalBristol_bnorm c, compute_bnorm c⟩
+
+theorem c14Example_bvalid : c14Example.BValid where
+  ngates := by decide
+  ng_cap := by decide
+  nw_cap := by decide
+  ni_cap := by decide
+  no_cap := by decide
+  bitsI := by decide
+  bitsO := by decide
+  nonzero := by decide
+  fits := by decide
+  wf := by decide
+  assigned := c14Example_valid.assigned
+
+example : parseBristol (marshalBristol c14Example) = .ok c14Example.bnorm :=
+  (C14_bristol_roundtrip c14Example c14Example_bvalid).1
+
+/-- Without input bits the Bristol text does not parse back (scope of
+`BValid.nonzero`). -/
+example : resClass (parseBristol (marshalBristol ⟨0, 0, [], [], []⟩)) = some .error := by
+  decide +kernel
+
+/-- A struct argument with `n` members `member_1000`, `member_1001`, … -/
+def c14BigArg (n : Nat) : IOArg :=
+  .mk [115] (.base .struct true 2) ((List.range n).map fun i =>
+    .mk ([109, 101, 109, 98, 101, 114, 95] ++ dec (1000 + i)) (.base .uint true (if i < 2 then 1 else 0)) [])
+
+/-- One AND gate, inputs: that struct. -/
+def c14Big (n : Nat) : PCircuit :=
+  ⟨1, 3, [c14BigArg n], [.mk [114] (.base .uint true 1) []], [⟨.and, 0, 1, 2⟩]⟩
+
+/-- NEGATION of the round trip for the code in /repo: a circuit with a
+200-member struct argument marshals to 6479 bytes; `ParseMPCLC` reading them
+from a `bytes.Reader` / file through its 4096-byte `bufio.Reader` does NOT
+return the circuit: the name that straddles byte 4096 is cut short by
+`r.Read(buf)`, the stream is misaligned, and the next length field read is
+above 10^6.  With `io.ReadFull` the same bytes parse (`C14_mpclc_roundtrip_fixed`;
+concretely the second conjunct).  The harness replays the same shape (struct of
+30..450 members) on the Go code. -/
+theorem C14_mpclc_roundtrip_short_read_witness :
+    4096 < (marshal (c14Big 200)).length ∧
+    parseMPCLC RdCfg.std Fix.none (marshal (c14Big 200)) = .error .oversize ∧
+    resClass (parseMPCLC RdCfg.std Fix.both (marshal (c14Big 200))) = none :=
+  ⟨by decide +kernel, resClass_err _ _ (by decide +kernel), by decide +kernel⟩
+
+/-- The same defect with a small file and a reader that delivers 3 bytes per
+`Read` (any `io.Reader` may): the file of `c14PanicBase` with the name
+"hello" (after the short read the letters "lo\0\0" are taken for a length). -/
+theorem C14_mpclc_roundtrip_short_reader_witness :
+    resClass (parseMPCLC ⟨4096, fun _ _ => 3⟩ Fix.none
+      (marshal ⟨0, 1, [.mk [104, 101, 108, 108, 111] (.base .uint true 1) []], [], []⟩)) = some .oversize ∧
+    resClass (parseMPCLC ⟨4096, fun _ _ => 3⟩ Fix.both
+      (marshal ⟨0, 1, [.mk [104, 101, 108, 108, 111] (.base .uint true 1) []], [], []⟩)) = none :=
+  ⟨by decide +kernel, by decide +kernel⟩
 
 end Mpc
